@@ -1341,6 +1341,7 @@ func init() {
 				}
 			}
 		}
+		c17MultiPublishers(c, now)
 		if c17TooManyHangs() {
 			c.Notes = append(c.Notes, "fail fast: child publishes were skipped after three of them ended in a timeout (see the failing inputs)")
 		}
